@@ -38,7 +38,7 @@ def unit(model, sizes):
         j = sizes[i] - 1
         bumps.append((i, W.run("predict_win", bump=(i, j, d))))
     P = W.prover()
-    mono = W.phi_monotone()
+    mono = W.phi_monotone(P)
     one, zero = z3.RealVal(1), z3.RealVal(0)
     for i in range(n):
         recs.append(ge_rec(P, f"C09/{model}/predict_win/range-lower[{i}]@{shape}", p[i], zero, fn, shape, rp))
@@ -70,8 +70,12 @@ def unit(model, sizes):
     if sizes[0] == sizes[-1]:
         W2 = PredictWorld(model, sizes, identical=[(0, n - 1)])
         o2 = W2.run("predict_win")
+        o3 = W2.run("predict_win", alias={n - 1: 0})       # the same list object in two slots
         P2 = W2.prover()
         ok = o2[0] == "return"
+        ok3 = ok and o3[0] == "return" and len(o3[1]) == n and all(P2.prove_eq(term(o3[1][k]), term(o2[1][k]))[0] for k in range(n))
+        recs.append(driver.rec(f"C09/{model}/predict_win/same-list-object-in-two-slots@{shape}", "discharged" if ok3 else "refuted", "field", 0,
+                               fn=fn, shape=shape, mode="R", replay=None if ok3 else dict(rp, alias=True)))
         recs.append(eq_rec(P2, f"C09/{model}/predict_win/identical-equal@{shape}", term(o2[1][0]), term(o2[1][n - 1]), fn, shape, rp) if ok else
                     driver.rec(f"C09/{model}/predict_win/identical-equal@{shape}", "refuted", "explorer", 0, fn=fn, shape=shape, replay=rp))
         if n == 2 and ok:
